@@ -1,2 +1,27 @@
+/-
+  C15 — conversions between configurations (posit clause): posit<n2,es2>(posit<n1,es1>) is
+  decode (exact, C01 `decode_value`) followed by one `convert_` rounding (C01 `convert_correct`).
+  Proved here: the special values survive every such conversion, for all configurations.
+-/
 import UVerif.Model.Posit
-theorem C15_placeholder : True := trivial
+open UVerif UVerif.Posit
+
+/-- NaR converts to NaR between any two posit configurations -/
+theorem C15_posit_nar (n1 es1 n2 es2 : Nat) (h1 : 0 < n1) :
+    Posit.convert n2 es2 (decode n1 es1 (2 ^ (n1 - 1))) = 2 ^ (n2 - 1) := by
+  have hp : 0 < 2 ^ (n1 - 1) := Nat.two_pow_pos _
+  have hlt : 2 ^ (n1 - 1) < 2 ^ n1 := Nat.pow_lt_pow_right (by decide) (by omega)
+  unfold decode
+  simp only [Nat.mod_eq_of_lt hlt]
+  rw [if_neg (by omega)]
+  simp only [if_true]
+  unfold Posit.convert
+  simp
+
+/-- zero converts to zero between any two posit configurations -/
+theorem C15_posit_zero (n1 es1 n2 es2 : Nat) :
+    Posit.convert n2 es2 (decode n1 es1 0) = 0 := by
+  unfold decode Posit.convert
+  simp
+
+example : Posit.convert 16 2 (decode 8 1 0x80) = 0x8000 := by decide
